@@ -637,7 +637,7 @@ def replay_finding(rep: Report, f: core.Finding, model_ok: bool):
     if d0.get("quant") is not None or d0.get("operand") is not None:
         codes = core.coq_codes(PROP, HEADER_SPEC, "(pcase * Z)%type", "case_code_quant" if d0.get("quant") is not None else "case_code_operand",
                                [(extra_term(e["case"]), core.sx(i)) for e, i in zip(entries, impls)], tag="kf")
-        model_ok = True      # the third outcome is the recorded defect's reading, available without the model
+        model_ok = True      # Spec-only streams: the model is not involved
     else:
         codes = core.coq_codes(PROP, header, "pcase", fn, [(case_term(e["case"]), core.sx(i)) for e, i in zip(entries, impls)], tag="kf")
     still, gone = 0, 0
@@ -825,24 +825,17 @@ def run(tier: str, seed: int, replay=None) -> int:
                        "python": c.snippet, "explanation": "selected call result (class 4, outside the model): an(set_of([vars..., f(...)], conjuncts binding the "
                        "variables)) evaluated twice; outcome [1, err (-3: second evaluation differs from the first), calls (as a set), rows = variables + "
                        "[plain result]]; Spec = one row per candidate binding. " + EXPLAIN})
-    # the call below a quantifier / as a comparison operand: outside the model; implementation vs Spec, with the faithful reading of
-    # the listed defect as the third outcome (code 2 = an instance of that finding, exactly as recorded)
-    open_classes = {f.cls for f in core.load_findings(PROP) if f.kind == "open"}
-    for label, ds, ctype, fn, kfclass, tagn in (("quant", quants, "(pcase * Z)%type", "case_code_quant", "K_call_below_quantifier", "quant"),
-                                                ("operand", operands, "(pcase * Z)%type", "case_code_operand", "K_falsy_call_as_operand", "opnd")):
+    # the call below a quantifier / as a comparison operand: outside the model; implementation vs Spec
+    for label, ds, ctype, fn, tagn in (("quant", quants, "(pcase * Z)%type", "case_code_quant", "quant"),
+                                       ("operand", operands, "(pcase * Z)%type", "case_code_operand", "opnd")):
         xs = [Case(term=extra_term(d), impl=run_impl(d), descr=d, snippet=snippet(d), key=json.dumps(d, sort_keys=True)) for d in ds]
         xcodes = core.coq_codes(PROP, HEADER_SPEC, ctype, fn, [(c.term, core.sx(c.impl)) for c in xs], chunk=250, tag=tagn) if xs else []
         dist[label] = len(xs)
-        dist[label + "_instances_of_" + kfclass] = 0
         xbad = []
         for c, code in zip(xs, xcodes):
             rep.count(c.key, c.impl[0] == 1 and bool(c.impl[-1]))
-            if code == 0 or code == 1:
-                continue
-            if code == 2 and kfclass in open_classes:
-                dist[label + "_instances_of_" + kfclass] += 1
-                continue
-            xbad.append((c, code))
+            if code != 0:
+                xbad.append((c, code))
         xbad.sort(key=lambda cc: len(cc[0].key))
         for c, code in xbad[:3]:
             rep.violation({"kind": "counterexample", "case": c.descr, "impl": c.impl, "model": None, "code": (500 if label == "quant" else 600) + code,
@@ -850,7 +843,7 @@ def run(tier: str, seed: int, replay=None) -> int:
                            "explanation": ("call below a quantifier (class 5): case['quant'] = [u, via not_(exists)]; outcome [1, err, rows]; Spec = the call holds "
                                            "for EVERY value of u. " if label == "quant" else
                                            "call as comparison operand (class 6): case['operand'] = [op (0 ==, 1 <, 2 !=), k]; outcome [1, err, calls, rows]; Spec = "
-                                           "the comparison holds for the call's plain result. ") + "code k: 2 = the listed defect's reading, 3 = neither. " + EXPLAIN})
+                                           "the comparison holds for the call's plain result. ") + EXPLAIN})
     dist["predicate_styles"] = {st: sum(1 for c in cases if c.descr.get("style", "dataclass") == st and c.descr["pred"]) for st in ("dataclass", "handinit", "kwbase", "postinit", "cached", "initvar")}
     dist["function_first_parameter_named_self_or_cls"] = sum(1 for c in cases if c.descr.get("first_name"))
     rep.extra["distribution"] = dist
